@@ -428,8 +428,18 @@ def wrapper_discipline(C, R, cfg, state_adts, rule):
                 continue   # a lock without a state call of THIS family (another primitive, or a field read: C01.I8)
             n += 1
             pc = path_cond(E, path)
-            # mutating transitions on this path (receiver taken by &mut)
-            mut = [c for c in calls if (c.get('argtys') or [''])[0].startswith('&mut')]
+            # mutating transitions on this path (receiver taken by &mut), counted per lock acquisition: several
+            # state calls under ONE lock are one (composite) transition, which rl.breach_wrappers hands to the rules
+            mut = []
+            seen_region = None
+            for ev2 in path.events:
+                if ev2['k'] == 'lock' and ev2['frame'] == own_frame:
+                    seen_region = ev2
+                elif ev2 in calls and (ev2.get('argtys') or [''])[0].startswith('&mut'):
+                    if mut and mut[-1][0] is seen_region and seen_region is not None and fn['path'] in F.alias_fns:
+                        continue
+                    mut.append((seen_region, ev2))
+            mut = [c for _r, c in mut]
             names = sorted(c['callee'].split('::')[-1] for c in mut)
             combo_ok = len(mut) <= 1 or (fn.get('impl_adt'), tuple(names)) in ALLOWED_COMBOS
             if not combo_ok or len(locks) == 0:
@@ -457,22 +467,33 @@ def constructor_state(R, E, F, state_adt, expect, rule):
     """the state struct's constructor establishes the initial state the inductive arguments start from:
     expect = {field: ('const', c) | ('param', name) | 'none' | 'empty-queue'}"""
     from engine import NONE as _NONE
-    news = [fn for fn in F.raw['fns'] if fn.get('impl_adt') == state_adt and fn['kind'] != 'closure'
-            and fn.get('name') == 'new' and not fn.get('impl_trait')]
-    if len(news) != 1:
-        raise CheckerError('anchor=constructor of %s (found %d)' % (state_adt, len(news)))
-    fn = news[0]
-    sites = [1 for f2, s2, cl in scan_aggregates(F, state_adt) if f2['path'] != fn['path'] and not cl]
-    if sites:
-        R.fail(rule, [state_adt, 'constructed-elsewhere'], '%s is also constructed outside its new()' % state_adt)
-    for path in E.run(fn['path']):
-        if path.exit != 'return' or path.ret[0] != 'agg':
-            R.fail(rule, [fn['path'], 'constructor-shape'], 'the constructor does not return an aggregate', None)
-            continue
-        d = dict(path.ret[3])
+    # every place where the struct is built: its new(), or - when that was folded away - the literal in its owner
+    site_fns = sorted(set(f2['path'] for f2, s2, cl in scan_aggregates(F, state_adt) if not cl))
+    if not site_fns:
+        raise CheckerError('anchor=no construction site of %s' % state_adt)
+    found = []
+    for sp_ in site_fns:
+        sfn = F.fn(sp_)
+        for path in E.run(sp_):
+            if path.exit != 'return':
+                continue
+            aggs = []
+            _find_adt_aggs(path.ret, state_adt, aggs)
+            for e in path.events:
+                if e['k'] == 'call':
+                    for a_ in e.get('args', ()):
+                        _find_adt_aggs(a_, state_adt, aggs)
+            for a_ in aggs:
+                found.append((sfn, path, a_))
+    if not found:
+        raise CheckerError('anchor=constructor of %s: no constructed value found on any path' % state_adt)
+    for fn, path, agg_ in found:
+        d = dict(agg_[3])
         for field, want in expect.items():
             got = d.get(field)
-            if want == 'none':
+            if isinstance(want, tuple) and want[0] == 'param' and got is not None and got[0] == 'param':
+                ok = True    # the caller's own argument, whatever it is called at this site
+            elif want == 'none':
                 ok = got == _NONE
             elif want == 'empty-queue':
                 ok = got is not None and got[0] == 'agg' and got[2] == 'new'
@@ -726,3 +747,15 @@ def slot_discipline(R, E, F, CG, state, rule, writers=('send',), may_take=True):
                                'that was accepted is discarded by the library [%s]' % (m['path'], path_cond(E, path)),
                                where(F, e), {'trace': trace_summary(path)})
     return n
+
+
+def effective(E, path, w):
+    """is this write event a real change?  A store of the value the location is already known to hold (the flag set
+    through `mem::replace(&mut flag, true)` on the path where it was true) is not an effect."""
+    old, val = w.get('old'), w.get('val')
+    if old is None or val is None:
+        return True
+    if old == val:
+        return False
+    a, b = const_of(E, path.facts, old), const_of(E, path.facts, val)
+    return not (a is not None and a == b)
